@@ -786,7 +786,13 @@ func (self *pnSlice) Swap(i, j int) {
 }
 
 func (self pnSlice) Less(i, j int) bool {
-	return int(uintptr(self.a[i].Node.v)) < int(uintptr(self.a[j].Node.v))
+	vi, vj := uintptr(self.a[i].Node.v), uintptr(self.a[j].Node.v)
+	if vi != vj {
+		return vi < vj
+	}
+	// NOTICE: a not-found node (zero length, to be inserted) has the same address as the first existing child,
+	// it must be written before that child, otherwise replaceMany() computes a negative gap
+	return self.a[i].Node.l < self.a[j].Node.l
 }
 
 func (self *pnSlice) Sort() {
